@@ -35,7 +35,8 @@ def strategy(tier):
         P = draw(trees.piece_length(tier))
         route = draw(st.sampled_from(["lib", "lib", "cli"]))
         t = draw(trees.tree(P, max_files=8 if tier == "quick" else 20, cli_safe=(route == "cli")))
-        return {"tree": t, "P": None if draw(st.sampled_from([True] + [False] * 9)) else P, "route": route}
+        return {"tree": t, "P": None if draw(st.sampled_from([True] + [False] * 9)) else P, "route": route,
+                "again": draw(common.second_act())}
     return case()
 
 
@@ -75,7 +76,23 @@ def run_case(case):
             m = common.create("TorrentFile", case["route"], root, out, P, extra_kw={"align": True}, extra_cli=["--align"])
         except Exception as e:
             return Outcome(Violation("C15:exception:%s" % type(e).__name__, "create raised %r" % (e,)), True, ["exception"])
-    return judge(m, tree, P)
+        first = judge(m, tree, P)
+        if first.violation is not None or not case.get("again"):
+            return first
+        tree2 = common.apply_second_act(tree, root, case["again"])
+        if tree2 is None:
+            return first
+        try:
+            m2 = common.create("TorrentFile", case["route"], root, os.path.join(scr, "out", "again.torrent"), P,
+                               extra_kw={"align": True}, extra_cli=["--align"])
+        except Exception as e:
+            return Outcome(Violation("C15:again:exception:%s" % type(e).__name__, "second create raised %r" % (e,)), True)
+        second = judge(m2, tree2, P)
+        if second.violation is not None:
+            v = second.violation
+            return Outcome(Violation("C15:again:" + v.sig.split(":", 1)[1], "second create in the same process after rewriting one file in place: " + v.msg),
+                           True, list(first.classes) + ["second-act"])
+        return Outcome(None, first.nontrivial, list(first.classes) + ["second-act"])
 
 
 def judge(m, tree, P):
